@@ -55,6 +55,11 @@ func ruleFuncValuesOfCorrectType(observers *Events, addError AddErrFunc, disable
 		case ast.IntValue:
 			if !value.Definition.OneOf("Int", "Float", "ID") {
 				unexpectedTypeMessage(addError, value)
+			} else if value.Definition.Name == "Int" && err == nil {
+				// Int is a signed 32-bit integer
+				if _, err32 := strconv.ParseInt(value.Raw, 10, 32); err32 != nil {
+					unexpectedTypeMessage(addError, value)
+				}
 			}
 
 		case ast.FloatValue:
